@@ -264,6 +264,46 @@ let cmd_match args =
       | _ -> "err")
   | _ -> failwith "match: bad arguments"
 
+let max_bound (t : Token.tok) : int =
+  let rec go t = match t with
+    | Token.TLeaf _ -> 0
+    | Token.TAlt (_, bs) | Token.TCat (_, bs) -> L.fold_left (fun a b -> max a (go b)) 0 bs
+    | Token.TRep (_, b, lo, hi) ->
+        let cap n = match n with N0 -> 0 | Npos _ -> (try (let s = string_of_n n in if String.length s > 6 then 1000000 else int_of_string s) with _ -> 1000000) in
+        max (go b) (max (cap lo) (match hi with Some h -> cap h | None -> 0))
+  in go t
+
+let cmd_mm args =
+  match args with
+  | e :: ps -> (
+      match Glob.build (to_str (unhex e)) with
+      | Glob.BuildOk (t, r) ->
+          let n = L.length (Query.captures t) in
+          String.concat "|" (L.map (fun p -> run_match r n (unhex p)) ps)
+      | Glob.BuildPanic _ -> "panic"
+      | Glob.BuildFuel -> "model-out-of-fuel"
+      | _ -> "err")
+  | _ -> failwith "mm: bad arguments"
+
+(* the documented language (Spec.spec_match) on the parsed tree, and the classes of the tree *)
+let lang_of_tree (t : Token.tok) (ps : string list) : string =
+  if max_bound t > 64 then "skip"
+  else String.concat "|" (L.map (fun p -> if Spec.spec_match orbit t (to_str (unhex p)) then "1" else "0") ps)
+
+let cls_text (t : Token.tok) : string =
+  Printf.sprintf "stable=%d rft=%d revrange=%d" (if Spec.trees_stable t then 1 else 0)
+    (if Spec.rooted_first_tree t then 1 else 0) (if Spec.has_reversed_range t then 1 else 0)
+
+let cmd_lang args =
+  match args with
+  | e :: ps -> (
+      match Glob.build (to_str (unhex e)) with
+      | Glob.BuildOk (t, _) -> cls_text t ^ "\t" ^ lang_of_tree t ps
+      | Glob.BuildPanic _ -> "panic"
+      | Glob.BuildFuel -> "model-out-of-fuel"
+      | _ -> "err")
+  | _ -> failwith "lang: bad arguments"
+
 (* ---- any / not ------------------------------------------------------------------------------------------ *)
 exception Build_failed of string
 
@@ -298,6 +338,28 @@ let cmd_anymatch args =
       | Error _ -> "err"
       | Ok (_, r) -> run_match r 1 (unhex p))
   | _ -> failwith "anymatch: bad arguments"
+
+let rec split_at k l = if k = 0 then ([], l) else match l with x :: r -> let (a, b) = split_at (k - 1) r in (x :: a, b) | [] -> ([], [])
+
+let cmd_anymm args =
+  match args with
+  | k :: rest -> (
+      let es, ps = split_at (int_of_string k) rest in
+      match any_of es with
+      | Error "panic" -> "panic"
+      | Error _ -> "err"
+      | Ok (_, r) -> String.concat "|" (L.map (fun p -> run_match r 1 (unhex p)) ps))
+  | _ -> failwith "anymm: bad arguments"
+
+let cmd_anylang args =
+  match args with
+  | k :: rest -> (
+      let es, ps = split_at (int_of_string k) rest in
+      match any_of es with
+      | Error "panic" -> "panic"
+      | Error _ -> "err"
+      | Ok (t, _) -> cls_text t ^ "\t" ^ lang_of_tree t ps)
+  | _ -> failwith "anylang: bad arguments"
 
 let cmd_not args =
   let tree =
@@ -396,6 +458,10 @@ let dispatch (line : string) : string =
       | "match" -> cmd_match args
       | "any" -> cmd_any args
       | "anymatch" -> cmd_anymatch args
+      | "mm" -> cmd_mm args
+      | "anymm" -> cmd_anymm args
+      | "lang" -> cmd_lang args
+      | "anylang" -> cmd_anylang args
       | "not" -> cmd_not args
       | "part" -> cmd_part args
       | "esc" -> cmd_esc args
@@ -404,7 +470,11 @@ let dispatch (line : string) : string =
       | "walk" -> Walkdriver.cmd_walk args
       | _ -> "unknown-command " ^ cmd)
 
+exception Budget
+let budget_s = try int_of_string (Sys.getenv "WAXMODEL_BUDGET") with _ -> 3
+
 let () =
+  Sys.set_signal Sys.sigalrm (Sys.Signal_handle (fun _ -> raise Budget));
   let dir = if Array.length Sys.argv > 1 then Sys.argv.(1) else "." in
   load_tables dir;
   try
@@ -413,7 +483,15 @@ let () =
       let line = String.trim line in
       if line = "" then print_newline ()
       else begin
-        let out = try dispatch line with Stack_overflow -> "model-stack-overflow" in
+        let out =
+          try
+            ignore (Unix.alarm budget_s);
+            let r = dispatch line in
+            ignore (Unix.alarm 0); r
+          with
+          | Stack_overflow -> ignore (Unix.alarm 0); "model-stack-overflow"
+          | Budget -> "model-timeout"
+        in
         print_string out;
         print_newline ()
       end
